@@ -69,6 +69,7 @@ func c17Sequential(c *Ctx, idx int) {
 	known := 0
 	initialized := false
 	nOps := 4 + r.Intn(12)
+	var created []string
 	var pool []string // addresses whose files may be (re)created
 	for i := 0; i < 6; i++ {
 		pool = append(pool, hx(r.Bytes(20)))
@@ -77,8 +78,14 @@ func c17Sequential(c *Ctx, idx int) {
 		switch r.Intn(7) {
 		case 0, 1: // create a file (matching, second spelling for the same address, or junk)
 			a := Pick(r, pool)
-			name := Pick(r, []string{a + ".key.json", a + ".key.json", "0x" + a + ".key.json", strings.ToUpper(a) + ".key.json", a + ".txt", a, a[:38] + ".key.json", "README.md"})
+			if len(created) > 0 && r.Intn(5) < 2 { // a second spelling for an address that already has a file
+				a = created[r.Intn(len(created))]
+			}
+			name := Pick(r, []string{a + ".key.json", a + ".key.json", "0x" + a + ".key.json", strings.ToUpper(a) + ".key.json", "0x" + strings.ToUpper(a) + ".key.json", a + ".txt", a, a[:38] + ".key.json", "README.md"})
 			_ = os.WriteFile(path.Join(dir, name), []byte("{}"), 0o600)
+			if strings.HasSuffix(name, ".key.json") && len(name) >= 49 {
+				created = append(created, a)
+			}
 		case 2:
 			l := &c17Listener{id: len(ls), ch: make(chan ethtypes.Address0xHex, 4096)}
 			ls = append(ls, l)
